@@ -25,6 +25,23 @@ M = [
  # --- imputer
  ('marginal_randrange_minus_1', ['C04'], 'ixai/imputer/marginal_imputer.py', "        rand_idx = random.randrange(len(features))\n        sampled_instance", "        rand_idx = random.randrange(max(len(features) - 1, 1))\n        sampled_instance"),
  ('marginal_product_shared_row', ['C04'], 'ixai/imputer/marginal_imputer.py', "        for feature_name in feature_subset:\n            rand_idx = random.randrange(len(features))\n", "        rand_idx = random.randrange(len(features))\n        for feature_name in feature_subset:\n"),
+ # --- trackers / wrappers / misc (second batch)
+ ('sliding_ring_reset', ['C11'], 'ixai/utils/tracker/sliding_window.py', "        if self.window_k >= self.k:\n            self.window_k = 0\n        self.sliding_window[self.window_k] = value_i\n        self.window_k += 1\n", "        if self.window_k < self.k:\n            self.sliding_window[self.window_k] = value_i\n            self.window_k += 1\n        else:\n            self.window_k = 0\n            self.sliding_window[self.window_k] = value_i\n"),
+ ('river_no_revert_for_dict_metrics', ['C13'], 'ixai/utils/wrappers/river.py', "        self._river_metric.revert(y_true=y_true, y_pred=y_prediction)\n", "        if not self._dict_input_metric:\n            self._river_metric.revert(y_true=y_true, y_pred=y_prediction)\n"),
+ ('river_probe_not_reverted', ['C13'], 'ixai/utils/validators/loss.py', "        _ = river_metric.update(y_true=0, y_pred=0)\n        _ = river_metric.revert(y_true=0, y_pred=0)\n", "        _ = river_metric.update(y_true=0, y_pred=0)\n"),
+ ('wrapper_sorted_keys_without_names', ['C14'], 'ixai/utils/wrappers/base.py', "        return np.asarray(list(x_dict.values())).reshape(1, -1)", "        return np.asarray([x_dict[k] for k in sorted(x_dict, key=str)]).reshape(1, -1)"),
+ ('river_wrapper_shared_labels', ['C14'], 'ixai/utils/wrappers/river.py', "        super().__init__(prediction_function, feature_names=None)\n        self._seen_labels = set()\n", "        super().__init__(prediction_function, feature_names=None)\n        self._seen_labels = RiverWrapper._ALL_LABELS\n\n    _ALL_LABELS = set()\n"),
+ ('normalize_delta_abs_min', ['C16'], 'ixai/explainer/base.py', "factor = max(importance_values_list) - min(importance_values_list)", "factor = max(importance_values_list) - abs(min(importance_values_list))"),
+ ('confidence_bound_delta_not_sqrt', ['C16'], 'ixai/explainer/base.py', "(1 / math.sqrt(delta)) * math.sqrt(self.variances[feature_name])", "(1 / delta) * math.sqrt(self.variances[feature_name])"),
+ ('sage_public_marginal_prediction_early', ['C17'], 'ixai/explainer/sage/incremental.py', "            marginal_prediction = marginal_prediction_tracker.get_normalized()\n", "            marginal_prediction = marginal_prediction_tracker.get_normalized()\n            self.marginal_prediction = marginal_prediction\n"),
+ ('pfi_storage_after_commit', ['C17'], 'ixai/explainer/pfi.py', "        if update_storage:\n            self._storage.update(x_i, y_i)\n        if pfi is not None:  # commit only after every callback (incl. the storage) has returned\n            self._importance_trackers.update(pfi)\n            variances = {feature: (pfi[feature] - self.importance_values[feature]) ** 2\n                         for feature in self.feature_names}\n            self._variance_trackers.update(variances)\n", "        if pfi is not None:\n            self._importance_trackers.update(pfi)\n            variances = {feature: (pfi[feature] - self.importance_values[feature]) ** 2\n                         for feature in self.feature_names}\n            self._variance_trackers.update(variances)\n        if update_storage:\n            self._storage.update(x_i, y_i)\n"),
+ ('marginal_imputer_private_rng', ['C18'], 'ixai/imputer/marginal_imputer.py', "        rand_idx = random.randrange(len(features))\n        sampled_instance", "        rand_idx = _RNG.randrange(len(features))\n        sampled_instance"),
+ ('tree_imputer_other_features_reservoir', ['C19'], 'ixai/imputer/tree_imputer.py', "        data_reservoir = self.storage_object.data_reservoirs[feature_name]\n", "        data_reservoir = self.storage_object.data_reservoirs[self.storage_object.feature_names[0]]\n"),
+ ('tree_storage_len_per_feature', ['C19'], 'ixai/storage/tree_storage.py', "                self.performances[feature_name].update(y_i, pred_i)\n        self._seen_samples += 1\n", "                self.performances[feature_name].update(y_i, pred_i)\n                self._seen_samples += 1\n"),
+ ('tree_storage_capacity_plus_one', ['C19'], 'ixai/storage/tree_storage.py', "size=self._leaf_reservoir_length, store_targets=False, constant_probability=1.0)", "size=self._leaf_reservoir_length + 1, store_targets=False, constant_probability=1.0)"),
+ ('default_imputer_mutates_instance', ['C06'], 'ixai/imputer/default_imputer.py', "        prediction = self.model_function({**x_i, **sampled_values})\n", "        x_i.update(sampled_values)\n        prediction = self.model_function(x_i)\n"),
+ ('interval_window_off_by_one', ['C05', 'C07'], 'ixai/storage/interval_storage.py', "        if len(self._storage_x) < self.size:\n", "        if len(self._storage_x) <= self.size and self.size > 1 or len(self._storage_x) < self.size:\n"),
+ ('welford_var_sample_variance', ['C10', 'C20'], 'ixai/utils/tracker/welford.py', "return self.sum_squares / max(self.N, 1)", "return self.sum_squares / max(self.N - 1, 1)"),
 ]
 wt = '/tmp/wt/mkmut'
 subprocess.run(['git', '-C', '/repo', 'worktree', 'remove', '--force', wt], capture_output=True)
@@ -36,7 +53,10 @@ try:
         s = open(p).read()
         if s.count(old) != 1:
             print('SKIP (anchor not unique/found):', name, s.count(old)); continue
-        open(p, 'w').write(s.replace(old, new))
+        s2 = s.replace(old, new)
+        if '_RNG.' in new:
+            s2 = s2.replace('import random\n', 'import random\n\n_RNG = random.Random()\n', 1)
+        open(p, 'w').write(s2)
         diff = subprocess.check_output(['git', '-C', wt, 'diff'], text=True)
         open(f'/verif/mutants/{name}.diff', 'w').write(diff)
         subprocess.check_call(['git', '-C', wt, 'checkout', '--', '.'])
